@@ -202,7 +202,7 @@ fn gen_string(src: &mut Src) -> Lexeme {
 }
 
 fn line_text(src: &mut Src) -> String {
-    const POOL: &[char] = &['a', 'b', ' ', ' ', '.', '/', '*', '"', '\'', '0', '1', '(', '{', ';', 'é', '中', '#', '@', '\t', '='];
+    const POOL: &[char] = &['a', 'b', ' ', ' ', '.', '/', '*', '"', '\'', '0', '1', '(', '{', ';', 'é', '中', '#', '@', '\t', '=', '\\'];
     let n = src.below(14);
     let mut s = String::new();
     for _ in 0..n {
@@ -213,7 +213,8 @@ fn line_text(src: &mut Src) -> String {
 
 fn gen_pragma(src: &mut Src) -> Lexeme {
     let head = if src.bool() { "pragma" } else { "#pragma" };
-    let ws = if src.chance(1, 4) { '\t' } else { ' ' };
+    // any blank that is not a line break may follow the keyword
+    let ws = [' ', ' ', ' ', '\t', '\u{b}', '\u{c}', '\u{200e}', '\u{200f}'][src.below(8)];
     let mut l = lx(&format!("{head}{ws}{}", line_text(src)), "PRAGMA", Cls::Line, "pragma");
     l.lookahead_class = true;
     l.first = Cls::Word;
@@ -231,7 +232,7 @@ fn gen_annotation(src: &mut Src) -> Lexeme {
 }
 
 fn gen_version(src: &mut Src) -> Lexeme {
-    let ws = [" ", "  ", "\t", "\n", " \n "][src.below(5)];
+    let ws = [" ", "  ", "\t", "\n", " \n ", "\u{b}", "\u{c}", "\u{200e}", "\u{200f} ", "\r\n", "\u{85}", "\u{2028}", "\u{2029}\t"][src.below(13)];
     let major = digits(src, DEC, 1);
     let v = if src.bool() { format!("{major}.{}", digits(src, DEC, 1)) } else { major };
     let mut l = lx(&format!("OPENQASM{ws}{v}"), "VERSION_STRING", Cls::Version, "version");
@@ -311,7 +312,7 @@ pub fn can_join(prev: &Lexeme, next: &Lexeme) -> bool {
 const WS: &[&str] = &[" ", " ", "  ", "\t", "\n", "\r\n", "\n\n", " \n ", "\u{85}", "\u{2028}", "\u{c}", "\u{b}", "\r", "\u{200e}", "\u{200f}", "\u{2029}", "\u{b}\u{c}", " \u{200e} "];
 
 fn gen_comment(src: &mut Src) -> String {
-    const POOL: &[char] = &['a', ' ', '"', '\'', '0', '$', '#', '@', 'é', '中', ';', 'p', 'O', '.', '1'];
+    const POOL: &[char] = &['a', ' ', '"', '\'', '0', '$', '#', '@', 'é', '中', ';', 'p', 'O', '.', '1', '\\'];
     let n = src.below(8);
     let mut body = String::new();
     for _ in 0..n {
